@@ -312,25 +312,50 @@ class ValGen:
             return (i, self.value(t["m"][i]))
         raise ValueError(k)
 
-    def same_shape(self, t, mv):
-        """A fresh value with exactly the same structure (sizes, shapes, string
-        capacities, null pattern) as mv — for fitting assignments."""
+    def same_shape(self, t, mv, caps=None):
+        """A fresh value with exactly the same structure (shapes, null pattern) as mv — for fitting
+        assignments.  Strings keep their utf-8 length; when `caps` (the value tree the storage was created from)
+        is given, a string gets any utf-8 length from 0 up to the length it was created with."""
         k = t["k"]
         if k == "sc":
             return self.scalar(t["t"])
         if k == "str":
             n = len(mv.encode("utf8"))
+            if caps is not None:
+                n0 = len(caps.encode("utf8"))
+                n = self.rng.choice([n0, n0, self.rng.randint(0, n0), max(0, n0 - 1), 0])
             self.ctr += 1
+            if caps is not None and n >= 4 and self.rng.random() < 0.3:
+                s = (f"{self.ctr}" + "\u00e9" * n)
+                while len(s.encode("utf8")) > n:
+                    s = s[:-1]
+                return s + "k" * (n - len(s.encode("utf8")))
             s = (f"{self.ctr}" + "zyxwvutsrqponmlkjihgfedcba")[:n]
             return s if len(s) == n else s + "k" * (n - len(s))
         if k == "st":
-            return {fn: self.same_shape(ft, mv[fn]) for fn, ft in t["f"]}
+            return {fn: self.same_shape(ft, mv[fn], None if caps is None else caps[fn]) for fn, ft in t["f"]}
         if k == "ar":
-            return AVal(mv.shape, {i: self.same_shape(t["it"], v) for i, v in mv.items.items()})
+            return AVal(mv.shape, {i: self.same_shape(t["it"], v, None if caps is None else caps.items[i]) for i, v in mv.items.items()})
         if k == "ref":
-            return None if mv is None else self.same_shape(t["to"], mv)
+            return None if mv is None else self.same_shape(t["to"], mv, caps)
         if k == "ur":
-            return None if mv is None else (mv[0], self.same_shape(t["m"][mv[0]], mv[1]))
+            if mv is None:
+                return None
+            sub = caps[1] if (caps is not None and caps[0] == mv[0]) else None
+            return (mv[0], self.same_shape(t["m"][mv[0]], mv[1], sub))
+
+
+def merge_caps(t, caps, newv):
+    """Capacity tree after assigning `newv` over storage created from `caps`: in-place parts keep the capacity
+    fixed at creation, reference targets are (re)created from the new value."""
+    k = t["k"]
+    if k in ("ref", "ur"):
+        return newv
+    if k == "st":
+        return {fn: merge_caps(ft, caps[fn], newv[fn]) for fn, ft in t["f"]}
+    if k == "ar":
+        return AVal(caps.shape, {i: merge_caps(t["it"], caps.items[i], newv.items[i]) for i in caps.items})
+    return caps
 
 
 # --------------------------------------------------------------------------
